@@ -37,6 +37,10 @@ Definition model_locate_ses (x : expr) (d : jv) : bytes :=
 Require Import Ojg.Jp.Mutate.
 Open Scope Z_scope.
 
+Definition model_locate_rv (mode ses : Z) (x : expr) (d : jv) : bytes :=
+  join_semi (map (fun pc => show_npath (fst pc) ++ x20 :: x7c :: x20 :: show (canon (snd pc)))
+                 (locate_rv mode (if ses =? 0 then slice_indexes else slice_indexes_ses) x d)).
+
 (* modifiers used by the harness: 0 = replace by v, 1 = wrap the element in an array *)
 Definition modifier (k : Z) (v : jv) : jv -> jv :=
   if k =? 0 then (fun _ => v) else (fun e => JArr [e]).
@@ -57,6 +61,9 @@ Definition model_mutate (incl : bool) (op : Z) (x : expr) (d v : jv) : bytes :=
     else if op =? 2 then (if incl then remove_spec_elem_root six x d else remove_spec six x d)
     else modify_spec six x (modifier (op - 3) v) d in
   (if comparable then x63 else x75) :: x20 :: show (canon r).
+
+Definition model_mutate_live (op : Z) (x : expr) (d v : jv) : bytes :=
+  show (canon (modify_live_spec slice_indexes x (modifier (op - 3) v) d)).
 
 Definition model_mutate_one (incl : bool) (op : Z) (x : expr) (d v : jv) : bytes :=
   let six := six_of incl in
